@@ -485,7 +485,9 @@ func Finish(r *Report, c *Ctx, verifDir, tier string, seed int64, t0 time.Time, 
 		"wall_s": time.Since(t0).Seconds(), "violations": len(viol),
 	}
 	eb, _ := json.MarshalIndent(ev, "", " ")
-	os.WriteFile(filepath.Join(verifDir, "evidence", r.Prop+".json"), eb, 0o644)
+	if strings.HasPrefix(r.Prop, "C") { // debug commands (W…) leave no evidence file
+		os.WriteFile(filepath.Join(verifDir, "evidence", r.Prop+".json"), eb, 0o644)
+	}
 	fmt.Printf("%s tier=%s obligations=%d discharged=%d known=%d unlisted=%d wall=%.1fs\n", r.Prop, tier, len(r.Obls), discharged, len(knownHit), len(viol), time.Since(t0).Seconds())
 	if len(r.Infra) > 0 {
 		for _, s := range r.Infra {
